@@ -133,7 +133,10 @@ Definition step_class (init : list bytes) (ppath : list bytes) (pidx plevels : N
     then None
     else if up_at_entry (ppath, pidx) t
             && pos_eqb (path', no_sidx ob) ([], 0) && bytes_eqb (no_sym ob) [] && lock_ok && keep_ok
-    then Some 1 else Some 0
+    then None   (* "_" at the entry node: the stack is emptied and the engine-level request fails one
+                   step later (GetCode "") -- read as the documented "fail and terminate execution";
+                   C04_apply_target_exact states this row exactly *)
+    else Some 0
   | _ =>
     (* a failed (or panicking) move leaves position and cache depth where they were *)
     if pos_eqb (path', no_sidx ob) (ppath, pidx) && (no_levels ob =? plevels) && keep_ok
